@@ -411,7 +411,7 @@ def _post_single(mon, call):
         if got != 1:
             mon.violation("tracker-forwarding", f"{name} on tracker: {what}: the wrapped runner completed {got} single runs")
             return
-        if res is not inner._rv_ret["single"]:
+        if not _same_result(res, inner._rv_ret["single"]):
             mon.violation("tracker-result-not-inner", f"{name} on tracker: {what}: returned object is not the wrapped runner's result")
             return
         recs = _read_records(r)
@@ -654,8 +654,8 @@ def _post_tbatch(mon, call):
         return
     inner_res = inner._rv_ret["batch"]
     res = call.result
-    same = res is inner_res or (isinstance(res, list) and isinstance(inner_res, list) and len(res) == len(inner_res)
-                                and all(a is b for a, b in zip(res, inner_res)))
+    same = res is inner_res or (isinstance(res, (list, tuple)) and isinstance(inner_res, (list, tuple)) and len(res) == len(inner_res)
+                                and all(_same_result(a, b) for a, b in zip(res, inner_res)))
     if not same:
         mon.violation("tracker-result-not-inner", f"{name}: {what}: returned results are not the wrapped runner's result objects (in order)")
         return
@@ -702,7 +702,7 @@ def _post_tdist(mon, call):
         return
     inner = t.inner_backend
     got = getattr(inner, "_rv_nret", {}).get("dist", 0) - pre["inner"]["nret"].get("dist", 0)
-    if got != 1 or call.result is not inner._rv_ret["dist"]:
+    if got != 1 or not _same_result(call.result, inner._rv_ret["dist"]):
         mon.violation("tracker-result-not-inner", f"{name}: {what}: returned distribution is not the wrapped runner's result ({got} inner calls)")
         return
     recs = _read_records(t)
@@ -716,6 +716,23 @@ def _post_tdist(mon, call):
         mon.violation("tracker-record-distribution", f"{name}: {what}: record circuit {bad}: {recs[0].get('circuit')!r}"[:600])
         return
     mon.ok(name)
+
+
+def _same_result(a, b):
+    """"returns exactly what the wrapped runner returned": the very object, or an object of the same kind with the
+    same content in the same order (an equal copy is still what the wrapped runner returned)"""
+    if a is b:
+        return True
+    try:
+        if type(a).__name__ != type(b).__name__:
+            return False
+        if hasattr(a, "bitstrings") and hasattr(b, "bitstrings"):
+            return [tuple(x) for x in a.bitstrings] == [tuple(x) for x in b.bitstrings]
+        if hasattr(a, "distribution_dict") and hasattr(b, "distribution_dict"):
+            return dict(a.distribution_dict) == dict(b.distribution_dict)
+    except Exception:
+        return False
+    return False
 
 
 def install(mon, reach):
